@@ -98,12 +98,22 @@ type fmtRound struct {
 
 // queryRoundTrip: parse src, format, parse again, format again
 func queryRoundTrip(src string, o fmtOpts) (r fmtRound, parsed bool) {
+	return queryRoundTripOf(src, nil, nil, o)
+}
+
+// queryRoundTripOf: the same on a document that was parsed before (and may have been formatted before, under
+// other options): tree0 is what the parser produced, and that is what every formatting must denote
+func queryRoundTripOf(src string, d0 *ast.QueryDocument, tree0 []GT, o fmtOpts) (r fmtRound, parsed bool) {
 	defer guard("parse, format, parse, format ("+o.String()+")", src)()
-	d0, err := parser.ParseQuery(&ast.Source{Input: src, Name: "q"})
-	if err != nil {
-		return r, false
+	if d0 == nil {
+		var err error
+		d0, err = parser.ParseQuery(&ast.Source{Input: src, Name: "q"})
+		if err != nil {
+			return r, false
+		}
+		tree0 = opsBeforeFrags(ProjectQuery(d0))
 	}
-	r.Tree = opsBeforeFrags(ProjectQuery(d0))
+	r.Tree = tree0
 	r.T1, r.Crash = formatQuery(d0, o)
 	if r.Crash != "" {
 		return r, true
@@ -190,8 +200,15 @@ func checkC12(c *core.Ctx) {
 			doc := gen.Doc()
 			src = RenderIgnored(UnparseQuery(doc, rng), rng)
 		}
+		// one parsed document for all option sets: a formatter that leaves something behind in the document
+		// shows in the next formatting
+		d0, perr := parser.ParseQuery(&ast.Source{Input: src, Name: "q"})
+		if perr != nil {
+			continue
+		}
+		tree0 := opsBeforeFrags(ProjectQuery(d0))
 		for _, o := range opts {
-			r, parsed := queryRoundTrip(src, o)
+			r, parsed := queryRoundTripOf(src, d0, tree0, o)
 			if !parsed {
 				break
 			}
